@@ -1,0 +1,260 @@
+//go:build verif
+
+// Contracts checked by /verif/govc (comment-only file; see /verif/DESIGN.md, property C37).
+// relE(a, b): b was produced from a by gopExpr; what that means is spelled out per node kind by the generated
+// postconditions below (every scalar field equal, every child related), i.e. relE is structural correspondence.
+package fromgo
+
+//@ ufunc relE(a ast.Expr, b gopast.Expr) bool
+//@ ufunc supportedE(e ast.Expr) bool
+//@ pred relI(a *ast.Ident, b *gopast.Ident) := (a == nil <==> b == nil) && (a != nil ==> b.Name == a.Name && b.NamePos == a.NamePos)
+//@ pred relB(a *ast.BasicLit, b *gopast.BasicLit) := (a == nil <==> b == nil) && (a != nil ==> b.ValuePos == a.ValuePos && int(b.Kind) == int(a.Kind) && b.Value == a.Value)
+//@ pred relIs(a []*ast.Ident, b []*gopast.Ident) := (a == nil <==> b == nil) && len(a) == len(b) && (forall i in 0..len(a) :: relI(a[i], b[i]))
+//@ pred relEs(a []ast.Expr, b []gopast.Expr) := len(a) == len(b) && (forall i in 0..len(a) :: relE(a[i], b[i]))
+//@ pred relFL(a *ast.FieldList, b *gopast.FieldList) := (a == nil <==> b == nil) && (a != nil ==> b.Opening == a.Opening && b.Closing == a.Closing &&
+//@        len(b.List) == len(a.List) && (forall i in 0..len(a.List) :: relField(a.List[i], b.List[i])))
+//@ pred supportedEs(a []ast.Expr) := forall i in 0..len(a) :: supportedE(a[i])
+//@ pred supportedF(f *ast.Field) := f != nil && supportedE(f.Type)
+//@ pred supportedFL(a *ast.FieldList) := a == nil || (forall i in 0..len(a.List) :: supportedF(a.List[i]))
+//@ pred supportedFT(a *ast.FuncType) := a != nil && supportedFL(a.TypeParams) && supportedFL(a.Params) && supportedFL(a.Results)
+//@ pred wfField(v *ast.Field) := supportedF(v)
+//@ pred wfFuncType(v *ast.FuncType) := supportedFT(v)
+//@ pred wfFuncDecl(v *ast.FuncDecl) := v != nil && supportedFL(v.Recv) && supportedFT(v.Type)
+//@ pred wfImportSpec(spec *ast.ImportSpec) := spec != nil
+//@ pred wfTypeSpec(spec *ast.TypeSpec) := spec != nil && supportedFL(spec.TypeParams) && supportedE(spec.Type)
+//@ pred wfValueSpec(spec *ast.ValueSpec) := spec != nil && supportedE(spec.Type) && supportedEs(spec.Values)
+//@
+//@ func gopIdent
+//@   assigns nothing
+//@   ensures relI(v, result)
+//@ func gopBasicLit
+//@   assigns nothing
+//@   ensures relB(v, result)
+//@ func gopIdents
+//@   assigns nothing
+//@   ensures [name-list] relIs(names, result)
+//@ loop gopIdents#1
+//@   invariant len(ret) == len(names) && fresh(ret) && (forall j in 0..rangeindex+1 :: relI(names[j], ret[j]))
+//@ func gopExprs
+//@   requires supportedEs(vals)
+//@   assigns nothing
+//@   ensures relEs(vals, result)
+//@ loop gopExprs#1
+//@   invariant len(ret) == len(vals) && n == len(vals) && fresh(ret) && (forall j in 0..rangeindex+1 :: relE(vals[j], ret[j]))
+//@ func gopType
+//@   requires supportedE(v)
+//@   assigns nothing
+//@   ensures [call.rel] relE(v, result)
+//@   ensures v == nil ==> result == nil
+//@ func gopFieldList
+//@   requires supportedFL(v)
+//@   assigns nothing
+//@   ensures relFL(v, result)
+//@ loop gopFieldList#1
+//@   invariant v != nil && len(list) == len(v.List) && fresh(list) && (forall j in 0..rangeindex+1 :: relField(v.List[j], list[j]))
+//@
+//@ # declarations
+//@ pred relSpec(a ast.Spec, b gopast.Spec) := (istype(a, *ast.ImportSpec) ==> istype(b, *gopast.ImportSpec) && relImportSpec(a.(*ast.ImportSpec), b.(*gopast.ImportSpec))) &&
+//@        (istype(a, *ast.TypeSpec) ==> istype(b, *gopast.TypeSpec) && relTypeSpec(a.(*ast.TypeSpec), b.(*gopast.TypeSpec))) &&
+//@        (istype(a, *ast.ValueSpec) ==> istype(b, *gopast.ValueSpec) && relValueSpec(a.(*ast.ValueSpec), b.(*gopast.ValueSpec)))
+//@ pred wfSpec(t token.Token, a ast.Spec) := (t == token.IMPORT ==> istype(a, *ast.ImportSpec) && wfImportSpec(a.(*ast.ImportSpec))) &&
+//@        (t == token.TYPE ==> istype(a, *ast.TypeSpec) && wfTypeSpec(a.(*ast.TypeSpec))) &&
+//@        (t == token.VAR || t == token.CONST ==> istype(a, *ast.ValueSpec) && wfValueSpec(a.(*ast.ValueSpec)))
+//@ pred wfGenDecl(v *ast.GenDecl) := v != nil && (v.Tok == token.IMPORT || v.Tok == token.TYPE || v.Tok == token.VAR || v.Tok == token.CONST) &&
+//@        (forall i in 0..len(v.Specs) :: wfSpec(v.Tok, v.Specs[i]))
+//@ pred relGenDecl(a *ast.GenDecl, b *gopast.GenDecl) := b != nil && b.TokPos == a.TokPos && int(b.Tok) == int(a.Tok) && b.Lparen == a.Lparen && b.Rparen == a.Rparen &&
+//@        len(b.Specs) == len(a.Specs) && (forall i in 0..len(a.Specs) :: relSpec(a.Specs[i], b.Specs[i]))
+//@ func gopGenDecl
+//@   requires wfGenDecl(v)
+//@   assigns nothing
+//@   ensures [GenDecl] relGenDecl(v, result)
+//@ loop gopGenDecl#1
+//@   invariant wfGenDecl(v) && len(specs) == len(v.Specs) && fresh(specs) && (forall j in 0..rangeindex+1 :: relSpec(v.Specs[j], specs[j]))
+//@ pred wfDecl(d ast.Decl) := (istype(d, *ast.GenDecl) || istype(d, *ast.FuncDecl)) &&
+//@        (istype(d, *ast.GenDecl) ==> wfGenDecl(d.(*ast.GenDecl))) && (istype(d, *ast.FuncDecl) ==> wfFuncDecl(d.(*ast.FuncDecl)))
+//@ pred relDecl(a ast.Decl, b gopast.Decl) := (istype(a, *ast.GenDecl) ==> istype(b, *gopast.GenDecl) && relGenDecl(a.(*ast.GenDecl), b.(*gopast.GenDecl))) &&
+//@        (istype(a, *ast.FuncDecl) ==> istype(b, *gopast.FuncDecl) && relFuncDecl(a.(*ast.FuncDecl), b.(*gopast.FuncDecl)))
+//@ func gopDecl
+//@   requires wfDecl(decl)
+//@   assigns nothing
+//@   ensures [Decl] relDecl(decl, result)
+//@ func gopDecls
+//@   requires forall i in 0..len(decls) :: wfDecl(decls[i])
+//@   assigns nothing
+//@   ensures [Decls] len(result) == len(decls) && (forall i in 0..len(decls) :: relDecl(decls[i], result[i]))
+//@ loop gopDecls#1
+//@   invariant len(ret) == len(decls) && fresh(ret) && (forall j in 0..rangeindex+1 :: relDecl(decls[j], ret[j]))
+//@ func ASTFile
+//@   requires f != nil && mode == 0 && (forall i in 0..len(f.Decls) :: wfDecl(f.Decls[i]))
+//@   assigns nothing
+//@   ensures [File] result != nil && result.Package == f.Package && relI(f.Name, result.Name) &&
+//@            len(result.Decls) == len(f.Decls) && (forall i in 0..len(f.Decls) :: relDecl(f.Decls[i], result.Decls[i]))
+//@
+//@ # generated by /verif/govc/cmd/gen37 fromgo from the field lists of go/ast and xgo/ast — do not edit
+//@ func gopExpr
+//@   requires supportedE(val)
+//@   assigns nothing
+//@   ensures [nil] val == nil ==> result == nil
+//@   ensures [call.rel] relE(val, result)
+//@   ensures [k.ArrayType] istype(val, *ast.ArrayType) && val.(*ast.ArrayType) != nil ==> istype(result, *gopast.ArrayType) && result.(*gopast.ArrayType) != nil &&
+//@            result.(*gopast.ArrayType).Lbrack == val.(*ast.ArrayType).Lbrack &&
+//@            relE(val.(*ast.ArrayType).Len, result.(*gopast.ArrayType).Len) &&
+//@            relE(val.(*ast.ArrayType).Elt, result.(*gopast.ArrayType).Elt)
+//@   ensures [k.BinaryExpr] istype(val, *ast.BinaryExpr) && val.(*ast.BinaryExpr) != nil ==> istype(result, *gopast.BinaryExpr) && result.(*gopast.BinaryExpr) != nil &&
+//@            relE(val.(*ast.BinaryExpr).X, result.(*gopast.BinaryExpr).X) &&
+//@            result.(*gopast.BinaryExpr).OpPos == val.(*ast.BinaryExpr).OpPos &&
+//@            int(result.(*gopast.BinaryExpr).Op) == int(val.(*ast.BinaryExpr).Op) &&
+//@            relE(val.(*ast.BinaryExpr).Y, result.(*gopast.BinaryExpr).Y)
+//@   ensures [k.CallExpr] istype(val, *ast.CallExpr) && val.(*ast.CallExpr) != nil ==> istype(result, *gopast.CallExpr) && result.(*gopast.CallExpr) != nil &&
+//@            relE(val.(*ast.CallExpr).Fun, result.(*gopast.CallExpr).Fun) &&
+//@            result.(*gopast.CallExpr).Lparen == val.(*ast.CallExpr).Lparen &&
+//@            relEs(val.(*ast.CallExpr).Args, result.(*gopast.CallExpr).Args) &&
+//@            result.(*gopast.CallExpr).Ellipsis == val.(*ast.CallExpr).Ellipsis &&
+//@            result.(*gopast.CallExpr).Rparen == val.(*ast.CallExpr).Rparen
+//@   ensures [k.ChanType] istype(val, *ast.ChanType) && val.(*ast.ChanType) != nil ==> istype(result, *gopast.ChanType) && result.(*gopast.ChanType) != nil &&
+//@            result.(*gopast.ChanType).Begin == val.(*ast.ChanType).Begin &&
+//@            result.(*gopast.ChanType).Arrow == val.(*ast.ChanType).Arrow &&
+//@            int(result.(*gopast.ChanType).Dir) == int(val.(*ast.ChanType).Dir) &&
+//@            relE(val.(*ast.ChanType).Value, result.(*gopast.ChanType).Value)
+//@   ensures [k.CompositeLit] istype(val, *ast.CompositeLit) && val.(*ast.CompositeLit) != nil ==> istype(result, *gopast.CompositeLit) && result.(*gopast.CompositeLit) != nil &&
+//@            relE(val.(*ast.CompositeLit).Type, result.(*gopast.CompositeLit).Type) &&
+//@            result.(*gopast.CompositeLit).Lbrace == val.(*ast.CompositeLit).Lbrace &&
+//@            relEs(val.(*ast.CompositeLit).Elts, result.(*gopast.CompositeLit).Elts) &&
+//@            result.(*gopast.CompositeLit).Rbrace == val.(*ast.CompositeLit).Rbrace
+//@   # CompositeLit: not carried over by design: Incomplete
+//@   ensures [k.Ellipsis] istype(val, *ast.Ellipsis) && val.(*ast.Ellipsis) != nil ==> istype(result, *gopast.Ellipsis) && result.(*gopast.Ellipsis) != nil &&
+//@            result.(*gopast.Ellipsis).Ellipsis == val.(*ast.Ellipsis).Ellipsis &&
+//@            relE(val.(*ast.Ellipsis).Elt, result.(*gopast.Ellipsis).Elt)
+//@   ensures [k.FuncLit] istype(val, *ast.FuncLit) && val.(*ast.FuncLit) != nil ==> istype(result, *gopast.FuncLit) && result.(*gopast.FuncLit) != nil &&
+//@            relFuncType(val.(*ast.FuncLit).Type, result.(*gopast.FuncLit).Type)
+//@   # FuncLit: not carried over by design: Body
+//@   ensures [k.IndexExpr] istype(val, *ast.IndexExpr) && val.(*ast.IndexExpr) != nil ==> istype(result, *gopast.IndexExpr) && result.(*gopast.IndexExpr) != nil &&
+//@            relE(val.(*ast.IndexExpr).X, result.(*gopast.IndexExpr).X) &&
+//@            result.(*gopast.IndexExpr).Lbrack == val.(*ast.IndexExpr).Lbrack &&
+//@            relE(val.(*ast.IndexExpr).Index, result.(*gopast.IndexExpr).Index) &&
+//@            result.(*gopast.IndexExpr).Rbrack == val.(*ast.IndexExpr).Rbrack
+//@   ensures [k.IndexListExpr] istype(val, *ast.IndexListExpr) && val.(*ast.IndexListExpr) != nil ==> istype(result, *gopast.IndexListExpr) && result.(*gopast.IndexListExpr) != nil &&
+//@            relE(val.(*ast.IndexListExpr).X, result.(*gopast.IndexListExpr).X) &&
+//@            result.(*gopast.IndexListExpr).Lbrack == val.(*ast.IndexListExpr).Lbrack &&
+//@            relEs(val.(*ast.IndexListExpr).Indices, result.(*gopast.IndexListExpr).Indices) &&
+//@            result.(*gopast.IndexListExpr).Rbrack == val.(*ast.IndexListExpr).Rbrack
+//@   ensures [k.InterfaceType] istype(val, *ast.InterfaceType) && val.(*ast.InterfaceType) != nil ==> istype(result, *gopast.InterfaceType) && result.(*gopast.InterfaceType) != nil &&
+//@            result.(*gopast.InterfaceType).Interface == val.(*ast.InterfaceType).Interface &&
+//@            relFL(val.(*ast.InterfaceType).Methods, result.(*gopast.InterfaceType).Methods)
+//@   # InterfaceType: not carried over by design: Incomplete
+//@   ensures [k.KeyValueExpr] istype(val, *ast.KeyValueExpr) && val.(*ast.KeyValueExpr) != nil ==> istype(result, *gopast.KeyValueExpr) && result.(*gopast.KeyValueExpr) != nil &&
+//@            relE(val.(*ast.KeyValueExpr).Key, result.(*gopast.KeyValueExpr).Key) &&
+//@            result.(*gopast.KeyValueExpr).Colon == val.(*ast.KeyValueExpr).Colon &&
+//@            relE(val.(*ast.KeyValueExpr).Value, result.(*gopast.KeyValueExpr).Value)
+//@   ensures [k.MapType] istype(val, *ast.MapType) && val.(*ast.MapType) != nil ==> istype(result, *gopast.MapType) && result.(*gopast.MapType) != nil &&
+//@            result.(*gopast.MapType).Map == val.(*ast.MapType).Map &&
+//@            relE(val.(*ast.MapType).Key, result.(*gopast.MapType).Key) &&
+//@            relE(val.(*ast.MapType).Value, result.(*gopast.MapType).Value)
+//@   ensures [k.ParenExpr] istype(val, *ast.ParenExpr) && val.(*ast.ParenExpr) != nil ==> istype(result, *gopast.ParenExpr) && result.(*gopast.ParenExpr) != nil &&
+//@            result.(*gopast.ParenExpr).Lparen == val.(*ast.ParenExpr).Lparen &&
+//@            relE(val.(*ast.ParenExpr).X, result.(*gopast.ParenExpr).X) &&
+//@            result.(*gopast.ParenExpr).Rparen == val.(*ast.ParenExpr).Rparen
+//@   ensures [k.SelectorExpr] istype(val, *ast.SelectorExpr) && val.(*ast.SelectorExpr) != nil ==> istype(result, *gopast.SelectorExpr) && result.(*gopast.SelectorExpr) != nil &&
+//@            relE(val.(*ast.SelectorExpr).X, result.(*gopast.SelectorExpr).X) &&
+//@            relI(val.(*ast.SelectorExpr).Sel, result.(*gopast.SelectorExpr).Sel)
+//@   ensures [k.SliceExpr] istype(val, *ast.SliceExpr) && val.(*ast.SliceExpr) != nil ==> istype(result, *gopast.SliceExpr) && result.(*gopast.SliceExpr) != nil &&
+//@            relE(val.(*ast.SliceExpr).X, result.(*gopast.SliceExpr).X) &&
+//@            result.(*gopast.SliceExpr).Lbrack == val.(*ast.SliceExpr).Lbrack &&
+//@            relE(val.(*ast.SliceExpr).Low, result.(*gopast.SliceExpr).Low) &&
+//@            relE(val.(*ast.SliceExpr).High, result.(*gopast.SliceExpr).High) &&
+//@            relE(val.(*ast.SliceExpr).Max, result.(*gopast.SliceExpr).Max) &&
+//@            result.(*gopast.SliceExpr).Slice3 == val.(*ast.SliceExpr).Slice3 &&
+//@            result.(*gopast.SliceExpr).Rbrack == val.(*ast.SliceExpr).Rbrack
+//@   ensures [k.StarExpr] istype(val, *ast.StarExpr) && val.(*ast.StarExpr) != nil ==> istype(result, *gopast.StarExpr) && result.(*gopast.StarExpr) != nil &&
+//@            result.(*gopast.StarExpr).Star == val.(*ast.StarExpr).Star &&
+//@            relE(val.(*ast.StarExpr).X, result.(*gopast.StarExpr).X)
+//@   ensures [k.StructType] istype(val, *ast.StructType) && val.(*ast.StructType) != nil ==> istype(result, *gopast.StructType) && result.(*gopast.StructType) != nil &&
+//@            result.(*gopast.StructType).Struct == val.(*ast.StructType).Struct &&
+//@            relFL(val.(*ast.StructType).Fields, result.(*gopast.StructType).Fields)
+//@   # StructType: not carried over by design: Incomplete
+//@   ensures [k.TypeAssertExpr] istype(val, *ast.TypeAssertExpr) && val.(*ast.TypeAssertExpr) != nil ==> istype(result, *gopast.TypeAssertExpr) && result.(*gopast.TypeAssertExpr) != nil &&
+//@            relE(val.(*ast.TypeAssertExpr).X, result.(*gopast.TypeAssertExpr).X) &&
+//@            result.(*gopast.TypeAssertExpr).Lparen == val.(*ast.TypeAssertExpr).Lparen &&
+//@            relE(val.(*ast.TypeAssertExpr).Type, result.(*gopast.TypeAssertExpr).Type) &&
+//@            result.(*gopast.TypeAssertExpr).Rparen == val.(*ast.TypeAssertExpr).Rparen
+//@   ensures [k.UnaryExpr] istype(val, *ast.UnaryExpr) && val.(*ast.UnaryExpr) != nil ==> istype(result, *gopast.UnaryExpr) && result.(*gopast.UnaryExpr) != nil &&
+//@            result.(*gopast.UnaryExpr).OpPos == val.(*ast.UnaryExpr).OpPos &&
+//@            int(result.(*gopast.UnaryExpr).Op) == int(val.(*ast.UnaryExpr).Op) &&
+//@            relE(val.(*ast.UnaryExpr).X, result.(*gopast.UnaryExpr).X)
+//@   use supUnfold(val)
+//@ axiom manual supUnfold := forall e ast.Expr :: supportedE(e) ==> (e == nil || istype(e, *ast.ArrayType) || istype(e, *ast.BasicLit) || istype(e, *ast.BinaryExpr) || istype(e, *ast.CallExpr) || istype(e, *ast.ChanType) || istype(e, *ast.CompositeLit) || istype(e, *ast.Ellipsis) || istype(e, *ast.FuncLit) || istype(e, *ast.FuncType) || istype(e, *ast.Ident) || istype(e, *ast.IndexExpr) || istype(e, *ast.IndexListExpr) || istype(e, *ast.InterfaceType) || istype(e, *ast.KeyValueExpr) || istype(e, *ast.MapType) || istype(e, *ast.ParenExpr) || istype(e, *ast.SelectorExpr) || istype(e, *ast.SliceExpr) || istype(e, *ast.StarExpr) || istype(e, *ast.StructType) || istype(e, *ast.TypeAssertExpr) || istype(e, *ast.UnaryExpr)) &&
+//@        (istype(e, *ast.ArrayType) ==> e.(*ast.ArrayType) != nil && supportedE(e.(*ast.ArrayType).Len) && supportedE(e.(*ast.ArrayType).Elt)) &&
+//@        (istype(e, *ast.BinaryExpr) ==> e.(*ast.BinaryExpr) != nil && supportedE(e.(*ast.BinaryExpr).X) && supportedE(e.(*ast.BinaryExpr).Y)) &&
+//@        (istype(e, *ast.CallExpr) ==> e.(*ast.CallExpr) != nil && supportedE(e.(*ast.CallExpr).Fun) && supportedEs(e.(*ast.CallExpr).Args)) &&
+//@        (istype(e, *ast.ChanType) ==> e.(*ast.ChanType) != nil && supportedE(e.(*ast.ChanType).Value)) &&
+//@        (istype(e, *ast.CompositeLit) ==> e.(*ast.CompositeLit) != nil && supportedE(e.(*ast.CompositeLit).Type) && supportedEs(e.(*ast.CompositeLit).Elts)) &&
+//@        (istype(e, *ast.Ellipsis) ==> e.(*ast.Ellipsis) != nil && supportedE(e.(*ast.Ellipsis).Elt)) &&
+//@        (istype(e, *ast.FuncLit) ==> e.(*ast.FuncLit) != nil && supportedFT(e.(*ast.FuncLit).Type)) &&
+//@        (istype(e, *ast.FuncType) ==> e.(*ast.FuncType) != nil && supportedFL(e.(*ast.FuncType).TypeParams) && supportedFL(e.(*ast.FuncType).Params) && supportedFL(e.(*ast.FuncType).Results)) &&
+//@        (istype(e, *ast.IndexExpr) ==> e.(*ast.IndexExpr) != nil && supportedE(e.(*ast.IndexExpr).X) && supportedE(e.(*ast.IndexExpr).Index)) &&
+//@        (istype(e, *ast.IndexListExpr) ==> e.(*ast.IndexListExpr) != nil && supportedE(e.(*ast.IndexListExpr).X) && supportedEs(e.(*ast.IndexListExpr).Indices)) &&
+//@        (istype(e, *ast.InterfaceType) ==> e.(*ast.InterfaceType) != nil && supportedFL(e.(*ast.InterfaceType).Methods)) &&
+//@        (istype(e, *ast.KeyValueExpr) ==> e.(*ast.KeyValueExpr) != nil && supportedE(e.(*ast.KeyValueExpr).Key) && supportedE(e.(*ast.KeyValueExpr).Value)) &&
+//@        (istype(e, *ast.MapType) ==> e.(*ast.MapType) != nil && supportedE(e.(*ast.MapType).Key) && supportedE(e.(*ast.MapType).Value)) &&
+//@        (istype(e, *ast.ParenExpr) ==> e.(*ast.ParenExpr) != nil && supportedE(e.(*ast.ParenExpr).X)) &&
+//@        (istype(e, *ast.SelectorExpr) ==> e.(*ast.SelectorExpr) != nil && supportedE(e.(*ast.SelectorExpr).X)) &&
+//@        (istype(e, *ast.SliceExpr) ==> e.(*ast.SliceExpr) != nil && supportedE(e.(*ast.SliceExpr).X) && supportedE(e.(*ast.SliceExpr).Low) && supportedE(e.(*ast.SliceExpr).High) && supportedE(e.(*ast.SliceExpr).Max)) &&
+//@        (istype(e, *ast.StarExpr) ==> e.(*ast.StarExpr) != nil && supportedE(e.(*ast.StarExpr).X)) &&
+//@        (istype(e, *ast.StructType) ==> e.(*ast.StructType) != nil && supportedFL(e.(*ast.StructType).Fields)) &&
+//@        (istype(e, *ast.TypeAssertExpr) ==> e.(*ast.TypeAssertExpr) != nil && supportedE(e.(*ast.TypeAssertExpr).X) && supportedE(e.(*ast.TypeAssertExpr).Type)) &&
+//@        (istype(e, *ast.UnaryExpr) ==> e.(*ast.UnaryExpr) != nil && supportedE(e.(*ast.UnaryExpr).X))
+//@ pred relFuncType(a *ast.FuncType, b *gopast.FuncType) := b != nil &&
+//@            b.Func == a.Func &&
+//@            relFL(a.TypeParams, b.TypeParams) &&
+//@            relFL(a.Params, b.Params) &&
+//@            relFL(a.Results, b.Results)
+//@ func gopFuncType
+//@   requires wfFuncType(v)
+//@   assigns nothing
+//@   ensures [FuncType] relFuncType(v, result)
+//@ pred relField(a *ast.Field, b *gopast.Field) := b != nil &&
+//@            relIs(a.Names, b.Names) &&
+//@            relE(a.Type, b.Type) &&
+//@            relB(a.Tag, b.Tag)
+//@ func gopField
+//@   requires wfField(v)
+//@   assigns nothing
+//@   ensures [Field] relField(v, result)
+//@   # Field: not carried over by design: Doc, Comment
+//@ pred relFuncDecl(a *ast.FuncDecl, b *gopast.FuncDecl) := b != nil &&
+//@            relFL(a.Recv, b.Recv) &&
+//@            relI(a.Name, b.Name) &&
+//@            relFuncType(a.Type, b.Type)
+//@ func gopFuncDecl
+//@   requires wfFuncDecl(v)
+//@   assigns nothing
+//@   ensures [FuncDecl] relFuncDecl(v, result)
+//@   # FuncDecl: not carried over by design: Doc, Body
+//@ pred relImportSpec(a *ast.ImportSpec, b *gopast.ImportSpec) := b != nil &&
+//@            relI(a.Name, b.Name) &&
+//@            relB(a.Path, b.Path) &&
+//@            b.EndPos == a.EndPos
+//@ func gopImportSpec
+//@   requires wfImportSpec(spec)
+//@   assigns nothing
+//@   ensures [ImportSpec] relImportSpec(spec, result)
+//@   # ImportSpec: not carried over by design: Doc, Comment
+//@ pred relTypeSpec(a *ast.TypeSpec, b *gopast.TypeSpec) := b != nil &&
+//@            relI(a.Name, b.Name) &&
+//@            relFL(a.TypeParams, b.TypeParams) &&
+//@            b.Assign == a.Assign &&
+//@            relE(a.Type, b.Type)
+//@ func gopTypeSpec
+//@   requires wfTypeSpec(spec)
+//@   assigns nothing
+//@   ensures [TypeSpec] relTypeSpec(spec, result)
+//@   # TypeSpec: not carried over by design: Doc, Comment
+//@ pred relValueSpec(a *ast.ValueSpec, b *gopast.ValueSpec) := b != nil &&
+//@            relIs(a.Names, b.Names) &&
+//@            relE(a.Type, b.Type) &&
+//@            relEs(a.Values, b.Values)
+//@ func gopValueSpec
+//@   requires wfValueSpec(spec)
+//@   assigns nothing
+//@   ensures [ValueSpec] relValueSpec(spec, result)
+//@   # ValueSpec: not carried over by design: Doc, Comment
